@@ -7,6 +7,7 @@ DT_UNSIGNED = ["uint8", "uint16", "uint32", "uint64"]
 DT_FLOAT = ["float32", "float64"]
 DT_INT = DT_SIGNED + DT_UNSIGNED
 DT_ALL = DT_BOOL + DT_INT + DT_FLOAT
+DT_EXOTIC = ["complex64", "complex128", "longdouble"]     # element types without a same-width unsigned twin / beyond float64 (used by the ragged drivers that opt in)
 
 STRATA = ["norows", "onerow", "onlyempty", "emptyfirst", "emptylast", "emptymid",
           "consecutive", "trailingrun", "noempty", "onelong", "free", "big", "manyempty", "rect", "pow2"]
